@@ -196,6 +196,10 @@ func fetchDiamonds(repo string, store storage.Store, settings Settings,
 	doneWithKeysChan chan<- struct{}, doneChan <-chan struct{}, wg *sync.WaitGroup) {
 	defer func() {
 		close(batchChan)
+		// when leaving early, consume what the key merging stage still has to say: it would otherwise
+		// block forever on its output, and so would callers waiting on wg
+		for range keysChan {
+		}
 		wg.Done()
 	}()
 
